@@ -38,7 +38,14 @@ func runC08(c *Ctx, r *Rec) {
 	rankD := findDispatcher(c, cr, true)
 	cmpD := findDispatcher(c, cr, false)
 	if rankD == nil || cmpD == nil {
-		r.skip("bind", "agent."+cr.n.Obj().Name(), "", "cannot bind the dispatchers")
+		// the rules that read the two kind switches cannot be evaluated; those about the leaves,
+		// the recursion and the depth counter do not need them
+		r.skip("bind", "agent."+cr.n.Obj().Name(), "", "cannot bind the dispatchers (private methods on two reflect.Values switching on Kind): the sibling-agreement, ladder, intrinsic-arm and composite rules are not evaluated")
+		checkIntrinsicArms(c, r, cr, nil, "D1-intrinsic-arms")
+		checkUnorderedAgreement(c, r, cr)
+		checkRankEqualSameSize(c, r, cr)
+		checkGuardedRecursion(c, r, info, cr.n, cr.ms, cr.depthF, cr.maxF, "D3-guarded-recursion")
+		checkDepthRestored(c, r, cr)
 		return
 	}
 	// ---- D1
@@ -91,56 +98,7 @@ func runC08(c *Ctx, r *Rec) {
 		r.verdict("D1-sibling-agreement", c.fdName(leaf), c.pos(leaf.Pos()), "the compare leaf is Go's == on the same extraction of both operands (true exactly on the = cell on which every rank leaf returns Equal, see C07 D1)", other)
 	}
 	checkIntrinsicArms(c, r, cr, rankD, "D1-intrinsic-arms")
-	// unordered cell: compare says false (==), the rank leaf must then not say Equal
-	leaves8 := rankLeaves(c, cr)
-	perClass8 := map[string]int{}
-	for _, lf := range leaves8 {
-		perClass8[lf.class]++
-	}
-	for _, lf := range leaves8 {
-		fd := lf.fd
-		if lf.class != "float" && lf.class != "complex" {
-			continue
-		}
-		params := paramObjs(info, fd)
-		if len(params) != 2 {
-			continue
-		}
-		envU := &symEnv{info: info, unordered: map[string]bool{}}
-		enableInlining(c, envU, fd, nil)
-		envU.resolve = func(e ast.Expr) (Val, bool) {
-			if call, ok := e.(*ast.CallExpr); ok && len(call.Args) == 1 {
-				if fn := calleeOf(info, call); fn != nil && fn.Pkg() != nil && fn.Pkg().Path() == "math/cmplx" {
-					for _, p := range params {
-						if isObj(info, call.Args[0], p) {
-							return Val{Lin: linSym(strings.ToLower(fn.Name()) + ":" + p.Name())}, true
-						}
-					}
-				}
-			}
-			return Val{}, false
-		}
-		for _, p := range params {
-			envU.unordered[p.Name()], envU.unordered["abs:"+p.Name()], envU.unordered["phase:"+p.Name()] = true, true, true
-		}
-		saysEqual := false
-		for _, p := range symRun(envU, fd.Body) {
-			if p.Kind == "return" && len(p.Rets) == 1 && p.Rets[0].Lin != nil && p.Rets[0].Lin.equal(k(cr.E)) {
-				saysEqual = true
-			}
-		}
-		construct := "agent.collator/rank-leaf[" + lf.class + "]"
-		if perClass8[lf.class] > 1 {
-			construct += "/" + fd.Name.Name
-		}
-		if saysEqual {
-			o := r.fail("D1-unordered-agreement", construct, c.pos(fd.Pos()), "for NaN operands the compare leaf (==) answers false while this rank leaf answers Equal: CompareValues and RankValues disagree, and CompareValues(NaN, NaN) is not reflexive")
-			o.Witness = "compare=false rank=Equal"
-		} else {
-			r.ok("D1-unordered-agreement", construct, c.pos(fd.Pos()), "no Equal verdict for unordered operands")
-		}
-	}
-	r.floorSoft("D1-unordered-agreement", "agent.collator/rank-leaves", "no rank leaf over an unordered type could be bound")
+	checkUnorderedAgreement(c, r, cr)
 
 	// ---- D2 size before content + mirror operands in the compare-side composites
 	ncomp := 0
@@ -294,30 +252,12 @@ func runC08(c *Ctx, r *Rec) {
 		}
 	}
 	r.floor("D2-mirror-operands", 1)
-	// the rank side answers Equal only for operands of the same size (CompareValues says false otherwise)
-	tmp := newRec(r.Property)
-	checkRankComposites(c, tmp, cr)
-	for _, o := range tmp.Obls {
-		if o.Rule == "D7-pairwise-bounds" || (o.Rule == "D7-lexicographic" && strings.HasSuffix(o.Construct, "/after")) {
-			o.Rule = "D1-rank-equal-same-size"
-			r.Obls = append(r.Obls, o)
-		}
-	}
+	checkRankEqualSameSize(c, r, cr)
 
 	// ---- D3 guarded recursion
 	checkGuardedRecursion(c, r, info, cr.n, cr.ms, cr.depthF, cr.maxF, "D3-guarded-recursion")
 
-	// ---- D4 depth restored at the entry points
-	for _, name := range []string{"CompareValues", "RankValues"} {
-		fd := cr.ms[name]
-		if fd == nil {
-			r.undecided("D4-depth-restored", "agent."+cr.n.Obj().Name()+"."+name, "", "entry point not found")
-			continue
-		}
-		bad := entryResetsCounter(c, info, fd, cr.depthF)
-		r.check(bad == "", "D4-depth-restored", c.fdName(fd), c.pos(fd.Pos()), "the depth counter is set to 0 (or restored by a deferred action) before the traversal starts", bad)
-	}
-	r.floor("D4-depth-restored", 2)
+	checkDepthRestored(c, r, cr)
 }
 
 func entailsCube(cube Cube, f *F) bool {
@@ -1457,4 +1397,89 @@ func initOfDeep(info *types.Info, n ast.Node, id *ast.Ident) ast.Expr {
 		return init
 	}
 	return nil
+}
+
+// checkUnorderedAgreement: on the IEEE-unordered cell the compare leaf (==) says false; a rank
+// leaf over floats or complex numbers must then not say Equal.
+func checkUnorderedAgreement(c *Ctx, r *Rec, cr *collRoles) {
+	info := cr.info
+	// unordered cell: compare says false (==), the rank leaf must then not say Equal
+	leaves8 := rankLeaves(c, cr)
+	perClass8 := map[string]int{}
+	for _, lf := range leaves8 {
+		perClass8[lf.class]++
+	}
+	for _, lf := range leaves8 {
+		fd := lf.fd
+		if lf.class != "float" && lf.class != "complex" {
+			continue
+		}
+		params := paramObjs(info, fd)
+		if len(params) != 2 {
+			continue
+		}
+		envU := &symEnv{info: info, unordered: map[string]bool{}}
+		enableInlining(c, envU, fd, nil)
+		envU.resolve = func(e ast.Expr) (Val, bool) {
+			if call, ok := e.(*ast.CallExpr); ok && len(call.Args) == 1 {
+				if fn := calleeOf(info, call); fn != nil && fn.Pkg() != nil && fn.Pkg().Path() == "math/cmplx" {
+					for _, p := range params {
+						if isObj(info, call.Args[0], p) {
+							return Val{Lin: linSym(strings.ToLower(fn.Name()) + ":" + p.Name())}, true
+						}
+					}
+				}
+			}
+			return Val{}, false
+		}
+		for _, p := range params {
+			envU.unordered[p.Name()], envU.unordered["abs:"+p.Name()], envU.unordered["phase:"+p.Name()] = true, true, true
+		}
+		saysEqual := false
+		for _, p := range symRun(envU, fd.Body) {
+			if p.Kind == "return" && len(p.Rets) == 1 && p.Rets[0].Lin != nil && p.Rets[0].Lin.equal(k(cr.E)) {
+				saysEqual = true
+			}
+		}
+		construct := "agent.collator/rank-leaf[" + lf.class + "]"
+		if perClass8[lf.class] > 1 {
+			construct += "/" + fd.Name.Name
+		}
+		if saysEqual {
+			o := r.fail("D1-unordered-agreement", construct, c.pos(fd.Pos()), "for NaN operands the compare leaf (==) answers false while this rank leaf answers Equal: CompareValues and RankValues disagree, and CompareValues(NaN, NaN) is not reflexive")
+			o.Witness = "compare=false rank=Equal"
+		} else {
+			r.ok("D1-unordered-agreement", construct, c.pos(fd.Pos()), "no Equal verdict for unordered operands")
+		}
+	}
+	r.floorSoft("D1-unordered-agreement", "agent.collator/rank-leaves", "no rank leaf over an unordered type could be bound")
+}
+
+// checkRankEqualSameSize: the rank side answers Equal only for operands of the same size.
+func checkRankEqualSameSize(c *Ctx, r *Rec, cr *collRoles) {
+	// the rank side answers Equal only for operands of the same size (CompareValues says false otherwise)
+	tmp := newRec(r.Property)
+	checkRankComposites(c, tmp, cr)
+	for _, o := range tmp.Obls {
+		if o.Rule == "D7-pairwise-bounds" || (o.Rule == "D7-lexicographic" && strings.HasSuffix(o.Construct, "/after")) {
+			o.Rule = "D1-rank-equal-same-size"
+			r.Obls = append(r.Obls, o)
+		}
+	}
+}
+
+// checkDepthRestored: the depth counter is reset at the entry points.
+func checkDepthRestored(c *Ctx, r *Rec, cr *collRoles) {
+	info := cr.info
+	// ---- D4 depth restored at the entry points
+	for _, name := range []string{"CompareValues", "RankValues"} {
+		fd := cr.ms[name]
+		if fd == nil {
+			r.undecided("D4-depth-restored", "agent."+cr.n.Obj().Name()+"."+name, "", "entry point not found")
+			continue
+		}
+		bad := entryResetsCounter(c, info, fd, cr.depthF)
+		r.check(bad == "", "D4-depth-restored", c.fdName(fd), c.pos(fd.Pos()), "the depth counter is set to 0 (or restored by a deferred action) before the traversal starts", bad)
+	}
+	r.floor("D4-depth-restored", 2)
 }
